@@ -637,3 +637,114 @@ def count_entries(level, vals, prefix=()):
 
 def has_data(level):
     return bool(level.data) or any(has_data(g) for g in level.groups)
+
+
+# ----------------------------------------------------------------------------- wire walk (untrusted buffers)
+
+class Walk:
+    """Result of walking a buffer with *wire* geometry inside n available bytes."""
+
+    def __init__(self):
+        self.valid = True
+        self.size = 0
+        self.reason = ""          # why invalid
+        self.touch = []           # (kind, offset, length) regions a correct reader may need
+        self.prefixes = []        # (offset, length) of data length prefixes
+        self.short_blocks = []    # (level start, wire bl, compiled bl) where wire < compiled
+        self.entries = 0
+        self.zero_len_entries = 0
+
+
+def _rd(m, buf, off, size):
+    return unpack_bits(bytes(buf[off:off + size]), m.big)
+
+
+def walk_level(m, level, buf, n, base, wire_bl, w, compiled_bl=None):
+    """Walks groups and data of a level whose block starts at base; returns end offset or None if invalid."""
+    if compiled_bl is not None and wire_bl < compiled_bl:
+        w.short_blocks.append((base, wire_bl, compiled_bl))
+    cur = base + wire_bl
+    if cur > n:
+        w.valid, w.reason = False, "block does not fit"
+        return None
+    for g in level.groups:
+        dim = m.dimension(g)
+        dsize = m.enc_size(dim)
+        if cur + dsize > n:
+            w.valid, w.reason = False, "group dimension does not fit"
+            return None
+        bo, bp = m.header_member(dim, "blockLength")
+        no, np_ = m.header_member(dim, "numInGroup")
+        gbl = _rd(m, buf, cur + bo, PRIM_SIZE[bp])
+        num = _rd(m, buf, cur + no, PRIM_SIZE[np_])
+        cur += dsize
+        flat = not g.groups and not g.data
+        cbl = m.level_layout(g)[2]
+        if flat:
+            if gbl < cbl and num:
+                w.short_blocks.append((cur, gbl, cbl))
+            if gbl == 0:
+                w.zero_len_entries += num
+            w.entries += num
+            if num * gbl > n - cur:
+                w.valid, w.reason = False, "flat group entries do not fit"
+                return None
+            cur += num * gbl
+        else:
+            for i in range(num):
+                w.entries += 1
+                if gbl == 0 and not g.groups and not g.data:
+                    w.zero_len_entries += 1
+                cur = walk_level(m, g, buf, n, cur, gbl, w, cbl)
+                if cur is None:
+                    return None
+                if w.entries > 5_000_000:
+                    w.valid, w.reason = False, "model gave up (too many entries)"
+                    return None
+    for d in level.data:
+        ps = m.data_prefix_size(d)
+        if cur + ps > n:
+            w.valid, w.reason = False, "data length prefix does not fit"
+            w.prefixes.append((cur, ps))
+            return None
+        w.prefixes.append((cur, ps))
+        ln = _rd(m, buf, cur, ps)
+        if cur + ps + ln > n:
+            w.valid, w.reason = False, "data payload does not fit"
+            return None
+        cur += ps + ln
+    return cur
+
+
+def walk_message(m, msg, buf, n):
+    """What size_bytes_checked(message, n) must answer for the first n bytes of buf."""
+    w = Walk()
+    hdr = m.header()
+    hs = m.enc_size(hdr)
+    if n < hs:
+        w.valid, w.reason = False, "message header does not fit"
+        return w
+    bo, bp = m.header_member(hdr, "blockLength")
+    bl = _rd(m, buf, bo, PRIM_SIZE[bp])
+    end = walk_level(m, msg, buf, n, hs, bl, w, m.level_layout(msg)[2])
+    if end is not None:
+        w.size = end
+    return w
+
+
+def walk_group(m, g, buf, n):
+    """What size_bytes_checked(group, n) must answer for a buffer that starts at the group's dimension."""
+    w = Walk()
+    dim = m.dimension(g)
+    dsize = m.enc_size(dim)
+    if n < dsize:
+        w.valid, w.reason = False, "group dimension does not fit"
+        return w
+
+    class _L:
+        groups = [g]
+        data = []
+    end = walk_level(m, _L, buf, n, 0, 0, w)
+    if end is not None:
+        w.size = end
+    return w
